@@ -8,6 +8,9 @@ R-C02-3  CRC-16/CCITT: step function, byte update and initial values
 R-C02-4  report provenance: the info line and the .inf file present the fields
          in the documented order, each from its own accessor, with sign
          extension applied to the two addresses only
+R-C02-5  cat's tests for 'current directory' (sort comparator and listing
+         loop) all compare the raw directory character with the raw current
+         directory (agreement of sibling tests)
 """
 from ..runner import RuleResult
 from ..facts import AnalysisBroken
@@ -21,7 +24,7 @@ EXPLANATION = (
     "construction: each accessor is evaluated in a bit-provenance domain (every result bit is an XOR-affine form "
     "of symbolic catalogue bits) and compared, bit for bit, with the Acorn DFS layout stated in the property and "
     "in doc/dfs.1; likewise sign extension and the CRC-16 step.  The report rule checks which accessor feeds "
-    "which column.  Not decided: column formatting, sort order of cat, 'every file exactly once'.")
+    "which column.  Not decided: column formatting, the rest of cat's sort order, 'every file exactly once'.")
 ASSUMPTIONS = ["the documented Acorn DFS catalogue layout (transcribed in the checker from the property statement and doc/dfs.1)",
                "the bit-provenance transfer functions for & | ^ ~ << >> + and integer conversions"]
 
@@ -435,13 +438,128 @@ def rule_sign_extension_use(prog, fixture=False):
     return r
 
 
+# ---------------------------------------------------------------- R-C02-5
+def _peel_casts(e):
+    e = strip_all(e)
+    while e is not None and e.get("k") in ("CStyleCastExpr", "CXXStaticCastExpr", "CXXFunctionalCastExpr",
+                                           "ImplicitCastExpr") and e.get("c"):
+        e = strip_all(e["c"][0])
+    return e
+
+
+def _local_init(fn, did):
+    for n in fn.walk():
+        if n.get("k") == "VarDecl" and n.get("d") == did:
+            return n["c"][0] if n.get("c") else None
+    return None
+
+
+def _is_written(fn, did):
+    from .. import flow
+    for n in fn.walk():
+        for d, _ in flow.written_decls(n):
+            if d == did:
+                return True
+        if n.get("k") == "UnaryOperator" and n.get("op") in ("++", "--") and flow.lvalue_root(n["c"][0]) == did:
+            return True
+    return False
+
+
+def _curdir_side(prog, fn, e, depth=0):
+    """None: unrelated to the current directory.  'exact': the current directory
+    itself.  'transformed': computed from it."""
+    x = _peel_casts(e)
+    if x is None:
+        return None
+    if x.get("k") == "MemberExpr" and x.get("n") == "current_directory":
+        return "exact"
+    mentions = any(y.get("k") == "MemberExpr" and y.get("n") == "current_directory" for y in walk(x))
+    if mentions:
+        return "transformed"
+    if x.get("k") == "DeclRefExpr" and x.get("dk") == "Var" and depth < 3:
+        # a local of this function or a captured local of the enclosing one
+        for f in [fn] + [g for g in prog.functions.values() if g.key == fn.parent_key]:
+            init = _local_init(f, x["d"])
+            if init is not None:
+                inner = _curdir_side(prog, f, init, depth + 1)
+                if inner is None:
+                    return None
+                return "transformed" if (inner == "transformed" or _is_written(f, x["d"])) else "exact"
+    return None
+
+
+def _raw_directory(prog, fn, e, depth=0):
+    """Is e the directory character of a catalogue entry, untransformed?"""
+    x = _peel_casts(e)
+    if x is None:
+        return False, "empty"
+    if x.get("k") == "CXXMemberCallExpr" and (strip(x["c"][0]) or {}).get("n") == "directory":
+        return True, "directory()"
+    if x.get("k") == "DeclRefExpr" and x.get("dk") == "ParmVar":
+        if _is_written(fn, x["d"]):
+            return False, "`%s` is modified before the comparison" % x.get("n")
+        idx = [i for i, p in enumerate(fn.params) if p["d"] == x["d"]]
+        if not idx or not fn.is_lambda:
+            return False, "`%s` is a parameter whose callers this rule does not follow" % x.get("n")
+        sites = 0
+        for g in prog.functions.values():
+            for c in g.walk():
+                if c.get("k") == "CXXOperatorCallExpr" and c.get("fn") == fn.key and g.unit is fn.unit:
+                    args = c["c"][2:]
+                    if idx[0] < len(args):
+                        sites += 1
+                        ok, why = _raw_directory(prog, g, args[idx[0]], depth + 1)
+                        if not ok:
+                            return False, "called with %s (%s)" % (show(args[idx[0]]), why)
+        return (sites > 0), ("bound to directory() at %d call sites" % sites if sites else "no call site found")
+    if x.get("k") == "DeclRefExpr" and x.get("dk") == "Var" and depth < 3:
+        init = _local_init(fn, x["d"])
+        if init is not None and not _is_written(fn, x["d"]):
+            return _raw_directory(prog, fn, init, depth + 1)
+        return False, "`%s` is not a plain copy of directory()" % x.get("n")
+    return False, "`%s` is not the entry's directory character itself" % show(x)
+
+
+def rule_current_directory_tests(prog, fixture=False):
+    r = RuleResult("R-C02-5", "cat decides 'is in the current directory' identically where it sorts and where it "
+                   "prints: every comparison with the current directory is between the entry's directory "
+                   "character itself and ctx.current_directory itself (no case folding on either side)",
+                   floor=0 if fixture else 3)
+    for fn in prog.functions.values():
+        if not fn.relfile().endswith("cmd_cat.cc") and not fixture:
+            continue
+        k = 0
+        for n in fn.walk():
+            if n.get("k") != "BinaryOperator" or n.get("op") not in ("==", "!="):
+                continue
+            a, b = n["c"][0], n["c"][1]
+            sa, sb = _curdir_side(prog, fn, a), _curdir_side(prog, fn, b)
+            if sa is None and sb is None:
+                continue
+            k += 1
+            key = "%s::%s::curdir-test#%d" % (fn.relfile(), fn.qn, k)
+            cur, other, st = (a, b, sa) if sa is not None else (b, a, sb)
+            if st != "exact":
+                r.add(key, fn.loc(n), False, "`%s`: the current directory is transformed (`%s`) before the comparison; "
+                      "directories are distinct when they differ only in case, and the listing below tests "
+                      "them exactly" % (show(n), show(cur)))
+                continue
+            ok, why = _raw_directory(prog, fn, other)
+            r.add(key, fn.loc(n), ok, "exact comparison of %s" % why if ok else
+                  "`%s`: %s; entries are then sorted as current-directory files by a different test than the "
+                  "one that prints them" % (show(n), why))
+    return r
+
+
 def run(ctx):
     prog = ctx.prog("dfs", "N")
     return [rule_entry_fields(prog), rule_fragment_header(prog), rule_title(prog), rule_sign_extend(prog),
-            rule_crc(prog), rule_report_provenance(prog), rule_sign_extension_use(prog)]
+            rule_crc(prog), rule_report_provenance(prog), rule_sign_extension_use(prog),
+            rule_current_directory_tests(prog)]
 
 
 SELFTESTS = [
     (rule_entry_fields, ["c02_bad.cc"], ["c02_good.cc"], "file_length"),
     (rule_sign_extend, ["c02_bad.cc"], ["c02_good.cc"], "sign_extend"),
+    (rule_current_directory_tests, ["c02_bad.cc"], ["c02_good.cc"], "curdir-test"),
 ]
